@@ -314,6 +314,31 @@ def check_loops(ctx):
                         else:
                             cat.append(term)
         ctx.check("C05.L", f"{fname}:concatenation-order", cat == order, f"{fname} concatenates {cat}; expected {order}", b.loc(fn), sample={"assembler": fname, "order": cat})
+        # the loop is dropped (early return) only when that cannot change behaviour: empty body, or a counted loop whose emitted
+        # form runs zero times (start == stop).  The predicate of every early return is evaluated on a grid of bounds and bodies.
+        ints = [-2, -1, 0, 1, 2, 5]
+        bounds = [(a, o, e) for a in ints + [G.Sym("Register")] for o in ints + [G.Sym("Register")] for e in (-2, -1, 1, 2)] if fname == "_build_cmds_loop" else [(None, None, None)]
+        for r in [n for n in A.body_nodes(fn) if isinstance(n, ast.Return)]:
+            tests = G.enclosing_tests(fn, r)
+            bad = None
+            try:
+                for body in ([], [G.Sym("ICmd")], [G.Sym("ICmd"), G.Sym("ICmd")]):
+                    for (a, o, e) in bounds:
+                        env = {"body_commands": body, "pre_commands": [G.Sym("ICmd")], "start": a, "stop": o, "step": e, "loop_register": G.Sym("Register"), "context": G.Sym("SdkLoopUntilContext")}
+                        taken = all(bool(G.peval(A.expand(t, d), env)) == pol for t, pol in tests)
+                        allowed = len(body) == 0 or (isinstance(a, int) and isinstance(o, int) and a == o)
+                        if taken and not allowed:
+                            bad = bad or {"body_commands": len(body), "start": str(a), "stop": str(o), "step": e}
+            except Unknown as ex_:
+                ctx.error("C05.L", f"{fname}: early-return condition `{' and '.join(src(t) for t, _ in tests)}` cannot be evaluated ({ex_})")
+                continue
+            ctx.check("C05.L", f"{fname}:loop-dropped-only-when-it-cannot-run", bad is None,
+                      f"{fname} returns without emitting the loop under `{' and '.join(('' if pol else 'not ') + '(' + src(t) + ')' for t, pol in tests)}`, which holds for {bad}: "
+                      "the emitted loop would run its body there (e.g. a count-down loop with a negative step), so the body's commands are silently dropped", b.loc(r),
+                      sample={"assembler": fname, "early_return_under": [src(t) for t, _ in tests]})
+            emits_pre = any(isinstance(c, ast.Call) and A.call_name(c) == "subrt_add_pending_commands" and A.norm(A.kwargs_of(c).get("commands", c.args[0] if c.args else ast.Constant(value=0))) == "pre_commands"
+                            for st in G.dominating_stmts(fn, r) + [x for t_ in [G.path_to(fn, r)] if t_ for x in t_[-1][0]] for c in ast.walk(st))
+            ctx.check("C05.L", f"{fname}:early-return-still-emits-the-pre-commands", emits_pre, f"{fname} drops the commands built before the loop when it returns early", b.loc(r), trivial=True)
         # bounds passed through
         if fname == "_build_cmds_loop" and cs:
             ks = A.kwargs_of(cs[0])
@@ -523,6 +548,10 @@ def run(ctx):
 BF = "netqasm/sdk/builder.py"
 FU = "netqasm/sdk/futures.py"
 SEEDS = [
+    dict(id="c05-empty-range-ignores-step", file="netqasm/sdk/builder.py", expect="C05.L", construct="loop-dropped-only-when-it-cannot-run",
+         old="        loop_register: operand.Register,\n    ) -> None:\n        if len(body_commands) == 0:\n            self.subrt_add_pending_commands(commands=pre_commands)\n            return\n\n        entry_label = self._label_mgr.new_label(start_with=\"LOOP\")",
+         new="        loop_register: operand.Register,\n    ) -> None:\n        empty_range = isinstance(start, int) and isinstance(stop, int) and stop <= start\n        if len(body_commands) == 0 or empty_range:\n            self.subrt_add_pending_commands(commands=pre_commands)\n            return\n\n        entry_label = self._label_mgr.new_label(start_with=\"LOOP\")"),
+
     dict(id="c05-flip-table", file="netqasm/lang/ir.py", expect="C05.F", construct="flip", old="            GenericInstr.BLT: GenericInstr.BGE,\n            GenericInstr.BGE: GenericInstr.BLT,", new="            GenericInstr.BLT: GenericInstr.BNE,\n            GenericInstr.BGE: GenericInstr.BLT,"),
     dict(id="c05-no-flip", file=BF, expect="C05.G", construct="flipped-branch", old="                branch_instruction=negated_predicate,\n                op0=op0,\n                op1=op1,", new="                branch_instruction=condition,\n                op0=op0,\n                op1=op1,"),
     dict(id="c05-ops-swapped", file=BF, expect="C05.G", construct="", old="        for x in [op0, op1]:\n            cmds, cond_operand = self._get_condition_operand(x)", new="        for x in [op1, op0]:\n            cmds, cond_operand = self._get_condition_operand(x)"),
@@ -544,5 +573,9 @@ SEEDS = [
     dict(id="c05-meas-store-reg", file=BF, expect="C05.M", construct="_build_cmds_measure", old="                outcome_commands = future._get_store_commands(outcome_reg)", new="                outcome_commands = future._get_store_commands(qubit_reg)"),
 ]
 BENIGN = [
+    dict(id="c05-benign-zero-iteration-loop-dropped", file="netqasm/sdk/builder.py",
+         old="        loop_register: operand.Register,\n    ) -> None:\n        if len(body_commands) == 0:\n            self.subrt_add_pending_commands(commands=pre_commands)\n            return\n\n        entry_label = self._label_mgr.new_label(start_with=\"LOOP\")",
+         new="        loop_register: operand.Register,\n    ) -> None:\n        if len(body_commands) == 0 or (isinstance(start, int) and isinstance(stop, int) and start == stop):\n            self.subrt_add_pending_commands(commands=pre_commands)\n            return\n\n        entry_label = self._label_mgr.new_label(start_with=\"LOOP\")"),
+
     dict(id="c05-benign-rename-locals", file=BF, count="all", edits=[(BF, "if_start", "start_cmds"), (BF, "loop_start", "entry_cmds"), (BF, "cond_operand", "cond_op")]),
 ]
